@@ -69,19 +69,25 @@ func (a Ary[LEN]) ReadFrom(r io.Reader) (n int64, err error) {
 	if !array.CanAddr() {
 		panic(errors.New("the contents of the Ary are not addressable"))
 	}
-	if array.Cap() < int(Len) {
-		array.Set(reflect.MakeSlice(array.Type(), int(Len), int(Len)))
-	} else {
-		array.SetLen(int(Len))
-	}
+	// The length comes from the peer: grow the slice as elements actually
+	// arrive instead of allocating the declared length up front.
+	slice := array.Slice(0, 0)
+	zero := reflect.Zero(array.Type().Elem())
 	for i := 0; i < int(Len); i++ {
-		elem := array.Index(i)
+		if i < slice.Cap() {
+			slice = slice.Slice(0, i+1) // reuse the element (and its buffers) already there
+		} else {
+			slice = reflect.Append(slice, zero)
+		}
+		elem := slice.Index(i)
 		nn, err := elem.Addr().Interface().(FieldDecoder).ReadFrom(r)
 		n += nn
 		if err != nil {
+			array.Set(slice)
 			return n, err
 		}
 	}
+	array.Set(slice)
 	return n, err
 }
 
